@@ -217,6 +217,18 @@ class Exec:
         self.prune()
         alts = self.I.call_method(self.obj, "run_timeout", [Duration("finite")], True, Frame(), None)
         self.ctx.call_idx += 1
+        # a symbolic return value is split into the two concrete outcomes
+        norm = []
+        for c, v in alts:
+            v = deref(v)
+            if isinstance(v, bool):
+                norm.append((c, v))
+            elif isinstance(v, Bd):
+                norm.append((And_(c, v), True))
+                norm.append((And_(c, Not_(v)), False))
+            else:
+                raise Unsupported("run_timeout returned %r" % (v,))
+        alts = [(c, v) for c, v in norm if c is not False]
         self.rets.append(alts)
         return alts
 
